@@ -65,6 +65,18 @@ fn main() {
             let lines = t.finish();
             println!("{}", serde_json::json!({"runs": runs, "events": lines}));
         }
+        "blocks" => {
+            let mut t = Trace::create(job["out"].as_str().unwrap());
+            let runs = vharness::metah::run_blocks(&job, &mut t);
+            let lines = t.finish();
+            println!("{}", serde_json::json!({"runs": runs, "events": lines}));
+        }
+        "cue" | "total" => {
+            let mut t = Trace::create(job["out"].as_str().unwrap());
+            let runs = if args[1] == "cue" { vharness::metah::run_cue(&job, &mut t) } else { vharness::metah::run_total(&job, &mut t) };
+            let lines = t.finish();
+            println!("{}", serde_json::json!({"runs": runs, "events": lines}));
+        }
         "crash" => {
             let mut t = Trace::create(job["out"].as_str().unwrap());
             let runs = vharness::crash::run(&job, &mut t);
